@@ -342,6 +342,30 @@ theorem C14_writes_to_different_chunks_commute (ops more : List Op)
     simp only [List.foldl_append, List.foldl_cons, List.foldl_nil, comm]
   rw [(C14_history_observations _).1 x z k hk, (C14_history_observations _).1 x z k hk, habs]
 
+/-- idempotence: writing the same payload to the same chunk twice in a row (at different times), anywhere in any
+history and whatever follows, leaves every later `ReadSector` as if it had been written once — the second write is an
+in-place overwrite or a re-allocation depending on the state, the content is the same either way. -/
+theorem C14_rewrite_idempotent (ops more : List Op) (x₁ z₁ : Int) (d₁ : ByteArray) (t₁ t₂ : BitVec 32) :
+    ∀ (x z : Int) (k : Nat), idx? x z = some k →
+      readSector ((ops ++ [Op.write x₁ z₁ d₁ t₁, Op.write x₁ z₁ d₁ t₂] ++ more).foldl step createWriter.1) x z =
+      readSector ((ops ++ [Op.write x₁ z₁ d₁ t₁] ++ more).foldl step createWriter.1) x z := by
+  intro x z k hk
+  have idem : ∀ a : Nat → Option ByteArray,
+      absStep (absStep a (Op.write x₁ z₁ d₁ t₁)) (Op.write x₁ z₁ d₁ t₂) = absStep a (Op.write x₁ z₁ d₁ t₁) := by
+    intro a
+    simp only [absStep]
+    cases h1 : idx? x₁ z₁ with
+    | none => rfl
+    | some k₁ =>
+      simp only []
+      by_cases c1 : needOf d₁.size < 256 <;> simp only [c1, if_true, if_false]
+      funext j
+      by_cases e1 : j = k₁ <;> simp only [e1, if_true, if_false]
+  have habs : (ops ++ [Op.write x₁ z₁ d₁ t₁, Op.write x₁ z₁ d₁ t₂] ++ more).foldl absStep (fun _ => none) =
+      (ops ++ [Op.write x₁ z₁ d₁ t₁] ++ more).foldl absStep (fun _ => none) := by
+    simp only [List.foldl_append, List.foldl_cons, List.foldl_nil, idem]
+  rw [(C14_history_observations _).1 x z k hk, (C14_history_observations _).1 x z k hk, habs]
+
 /-- non-vacuity: a fresh region satisfies the invariant (and so does every state reachable from it) -/
 example : Inv createWriter.1 (fun _ => none) := Inv.create
 
